@@ -6,6 +6,7 @@ package main
 
 import (
 	"fmt"
+	"go/token"
 	"go/types"
 	"regexp"
 	"sort"
@@ -125,6 +126,8 @@ func runC16(cx *Ctx, r *Report) {
 	r.requireCount("authority-guard", 5)
 	r.requireCount("validated-writer", 5)
 	cx.rateBounds(r)
+	cx.authorityWiring(r)
+	r.requireCount("authority-wiring", 5)
 	r.requireCount("rate-bounds", 8)
 	r.requireCount("coverage", 10)
 }
@@ -771,5 +774,64 @@ func init() {
 				fmt.Println("    ", f.String())
 			}
 		}
+	}
+}
+
+// authorityWiring: wherever a module's ProvideModule reads Config.Authority, the
+// value handed on (to the keeper constructor) must derive from it on the
+// non-empty branch: `authority := gov; if cfg.Authority != "" { authority = parse(cfg.Authority) }`.
+// A shadowed assignment (`authority := …` inside the if) silently drops the
+// configured authority and leaves governance in control.
+func (cx *Ctx) authorityWiring(r *Report) {
+	n := 0
+	for _, f := range cx.P.AllFuncs {
+		if f.Name() != "ProvideModule" || !isIrismodFunc(f) || f.Blocks == nil {
+			continue
+		}
+		// loads of the field Authority of a module config
+		var cfgLoads []ssa.Value
+		for _, b := range f.Blocks {
+			for _, ins := range b.Instrs {
+				switch x := ins.(type) {
+				case *ssa.FieldAddr:
+					if fieldNameShort(x.X.Type(), x.Field) == "Authority" {
+						for _, ref := range *x.Referrers() {
+							if u, ok := ref.(*ssa.UnOp); ok && u.Op == token.MUL {
+								cfgLoads = append(cfgLoads, u)
+							}
+						}
+					}
+				case *ssa.Field:
+					if fieldNameShort(x.X.Type(), x.Field) == "Authority" {
+						cfgLoads = append(cfgLoads, x)
+					}
+				}
+			}
+		}
+		if len(cfgLoads) == 0 {
+			continue
+		}
+		n++
+		src := map[ssa.Value]bool{}
+		for _, v := range cfgLoads {
+			src[v] = true
+		}
+		// some call to an irismod function (the keeper constructor) receives a value derived from it
+		wired := false
+		for _, ci := range findCalls(f, func(ci ssa.CallInstruction) bool {
+			g := ci.Common().StaticCallee()
+			return g != nil && isIrismodFunc(g) && strings.HasPrefix(g.Name(), "NewKeeper")
+		}) {
+			for _, a := range ci.Common().Args {
+				if derivesFrom(a, src, 0, map[ssa.Value]bool{}) {
+					wired = true
+				}
+			}
+		}
+		mod := moduleOf(funcPkgPath(f))
+		r.check(wired, "authority-wiring", mod+".ProvideModule", cx.P.Pos(f.Pos()), "the authority handed to the keeper derives from Config.Authority when one is configured", "ProvideModule of "+mod+" reads Config.Authority but the value never reaches the keeper constructor (shadowed or dropped assignment): a configured authority is ignored and the default (governance) stays in control of the parameters")
+	}
+	if n < 5 {
+		r.toolErr("only %d ProvideModule functions read Config.Authority (≥5 confirmed)", n)
 	}
 }
